@@ -13,6 +13,7 @@ use std::sync::atomic::{AtomicBool, AtomicU64, Ordering};
 use std::sync::{Arc, Mutex};
 use std::time::Instant;
 
+pub mod alloc;
 pub mod worker;
 
 #[derive(Clone, Copy, PartialEq, Eq, Debug)]
